@@ -116,6 +116,25 @@ def cases(rng, tier):
         tp = c14.program("z.bin", 'w+', [('write', b'abcdefg'), ('seek', 3), ('trunc',), ('close',)])
         assert "ㄱ ㄱㅇㄷ ㅎㄴ" in tp
         yield Case(program=tp, variants=(tp.replace("ㄱ ㄱㅇㄷ ㅎㄴ", f"{z} ㄱㅇㄷ ㅎㄴ"),), tag='zero-filecmd', compare_fs=True)
+    # (4) every trailer word of up to three digits after ㅎ (call arity) and up to two after ㅇ (frame number), with
+    #     the right number of arguments / enclosing functions actually present: the number is read by the codec's
+    #     rule and by nothing else (the model parser and evaluator are the oracle)
+    import itertools as _it
+    words3 = ["".join(w) for n in (1, 2, 3) for w in _it.product(JAMO, repeat=n)]
+    if tier == 'quick':
+        words3 = [w for w in words3 if len(w) < 3] + rng.sample([w for w in words3 if len(w) == 3], 60) + ["ㄱㄴㄷ", "ㄴㄷㄹ", "ㄷㄹㅁ", "ㅂㅅㅈ"]
+    for w in words3:
+        n = py_parse(w)
+        k = n if 0 <= n <= 600 else 2
+        args = " ".join(gen.enc(i % 7) for i in range(k))
+        yield Case(program=f"({args} ㅁㄹ ㅎ{w}) ㅈㄷㅎㄴ", tag='trailer-arity', nontrivial=True, timeout=20)
+    D = 66
+    for w in ["".join(x) for n in (1, 2) for x in _it.product(JAMO, repeat=n)]:
+        # D nested functions, the i-th (from the outside) applied to the number i; the innermost returns argument 0 of frame w
+        body = f"ㄱ ㅇ{w}"
+        for i in range(D - 1, -1, -1):
+            body = f"{gen.enc(i)} ({body} ㅎ) ㅎㄴ"
+        yield Case(program=body, tag='trailer-frame', nontrivial=True, timeout=20)
     # file mode / command spellings on a real scratch file
     for k in (1, 2):
         P = lambda w: pad(w, k)
@@ -138,7 +157,7 @@ SPEC = {
     'rule': 'parse_number / encode_number (checked in batches: one case = 512 integers or words): exhaustive |n| ≤ 2^11 (quick) / 2^20 (thorough), all digit words up to '
             'length 4 / 7, 200 random integers up to 2^4096, powers of 8 ± 1; programs in which one literal is replaced by '
             'a zero-padded spelling in each role (value, arity, nesting index, function reference, built-in name, module '
-            'path, file mode / command, list index) must behave identically; every spelling of zero of either parity (ㄱㄱ … ㄱ×7 / ×13) in every role where a zero can stand (value, closure / built-in arity, argument position, nesting index, function reference, built-in name, list index, module path, file command); non-trivial = multi-digit word / |n| > 7',
+            'path, file mode / command, list index) must behave identically; every spelling of zero of either parity (ㄱㄱ … ㄱ×7 / ×13) in every role where a zero can stand (value, closure / built-in arity, argument position, nesting index, function reference, built-in name, list index, module path, file command); every trailer word of ≤ 3 digits as an arity with that many arguments present and of ≤ 2 digits as a frame number inside 66 nested functions; non-trivial = multi-digit word / |n| > 7',
     'trusted': ["the harness's own reading of docs/spec.md:31-44 (py_parse) used as the monitor's oracle"],
     'assumptions': [],
 }
